@@ -380,7 +380,11 @@ Section Eval.
     : outcome value * store :=
     match f with
     | VLam id params body scope =>
-        let self := match lam_name st id with Some n => [(n, this)] | None => [] end in
+        (* the self reference, unless a value of that name was captured at creation (F8 repaired) *)
+        let self := match lam_name st id with
+                    | Some n => match lookup_frame scope n with Some _ => [] | None => [(n, this)] end
+                    | None => []
+                    end in
         let inp := match lookup fr "inputs" with Some i => [("inputs", i)] | None => [] end in
         match bind_params params 0 args (inp ++ self) with
         | None => (Panic, st)
